@@ -3,6 +3,7 @@ module verif/harness
 go 1.21
 
 require (
+	github.com/davecgh/go-spew v1.1.1
 	github.com/fxamacker/cbor/v2 v2.5.0
 	github.com/veraison/eat v0.0.0-20210331113810-3da8a4dd42ff
 	github.com/veraison/go-cose v1.3.0-rc.1
@@ -10,7 +11,6 @@ require (
 )
 
 require (
-	github.com/davecgh/go-spew v1.1.1 // indirect
 	github.com/lestrrat-go/blackmagic v1.0.1 // indirect
 	github.com/lestrrat-go/httpcc v1.0.1 // indirect
 	github.com/lestrrat-go/httprc v1.0.4 // indirect
